@@ -313,6 +313,11 @@ def op_malformed_ref(form, r):
     if not names:
         return None
     bad = r.choice(MALFORMED) % r.choice(names)
+    if form.get("osm") and r.random() < 0.5:
+        # the osm sheet holds texts with references too
+        row_i = r.randrange(len(form["osm"]))
+        form["osm"][row_i]["label"] = f"tag {bad}"
+        return Plan(form, tokens=["Reference expressions must only include question names"], anyof=["label"], depth=0, note="osm-sheet", stable=False)
     p = _plant_ref(form, r, bad)
     if not p:
         return None
